@@ -26,8 +26,8 @@ Proof.
   - destruct Hwf as [Hnd [Hzf Hacts]].
     rewrite app_assoc, run_group_app in H.
     destruct (run_group s (zf_ops zf ++ act_ops (pageN s) acts)) as [code s2] eqn:E2. destruct code; [|inversion H].
-    pose proof (same_run s _ s s2 (body_ops_ok true s zf acts (fun p q Hin => proj1 (Hzf p q Hin)) Hacts) (same_start s Hd (j_mode s HJ)) E2) as SM.
-    destruct SM as [_ _ _ _ _ [Ft [Fc [Fd _]]]].
+    pose proof (same_run s _ s s2 (body_ops_ok true s zf acts (fun p q Hin => proj1 (Hzf p q Hin)) Hacts) (same_start s Hd) (j_mode s HJ) E2) as SM.
+    destruct SM as [_ _ _ _ [Ft [Fc [Fd _]]]].
     apply run_group_one in H. cbn [step] in H.
     destruct (writeable s2 && (pageN s2 =? 0) && match dbfile s2 with [] => true | _ :: _ => false end).
     + unfold op_invalidate_journal in H. inversion H; subst s'. split; [reflexivity|]. left. cbn [ltxdir txid chk with_dirty]. auto.
